@@ -54,6 +54,14 @@ CLAIMED = {
             'literal names the clause that forced it (X4); that every connective treated as logical by the Tseitin encoding has its expansion '
             'theorem and literals keep their sign (X5). Necessary conditions of valid certificates; verdict correctness is not decided.',
             'agreement of the verdict with exhaustive search, termination, equisatisfiability and checker acceptance are run-time properties and not decided'),
+    'C16': ('exact arithmetic of the Omega test and the simplex procedures; completeness of the witness extension over the constraints',
+            'taint rule for float-producing constructs (true division without a Fraction operand, float(), math functions) over every function of '
+            'prover/omega.py, prover/simplex.py and prover/simplex_strict.py, with a table of confirmed exceptions; structural rule on extend_vmap',
+            'Decides that the integer and rational decision procedures compute with integers and fractions only (O1, 236 functions; one confirmed '
+            'exception: Pair division in simplex_strict) and that extending a witness to an eliminated variable traverses every constraint, treats '
+            'both signs of the coefficient and compares the bounds before choosing a value (O2). A necessary condition of correct answers on '
+            'large coefficients; agreement with ground truth is not decided.',
+            'agreement with ground truth, elimination order, dark shadows, pivoting and termination are numerical and not decided'),
     'C17': ('bookkeeping of the congruence closure that answers and explanations rest on',
             'pairing / must-pass-through rules over the statement CFG of merge and _propagate, key agreement between writer and reader of the '
             'proof table, self-argument rule for the explanation chain',
@@ -157,7 +165,6 @@ CLAIMED = {
 }
 
 NOT_APPLICABLE = {
-    'C16': 'correctness of Omega elimination, GCD tightening, simplex pivoting and witness reconstruction is numerical; the checker-acceptance clause is decided by the checker at run time',
     'C20': 'soundness of wp/VC generation is semantic; the print/re-parse clause cannot be decided from tables because imperative/parser2.py has an ambiguous expression grammar resolved by LALR conflict defaults and Op.__str__ is code, not a table',
 }
 
